@@ -803,7 +803,8 @@ def has_isotope_ions(spec):
 def oracle_sums(compound, E):
     """(mass, sum n f1, sum n f2, cond1, cond2, scale1, scale2) from formula.atoms/mass and my tables."""
     from periodictable import formulas
-    f = formulas.formula(compound)
+    # density given so that Formula() does not look up the (possibly missing) element density
+    f = formulas.formula(compound, density=1.0)
     mass = f.mass
     s1 = s2 = c1 = c2 = a1 = a2 = 0.0
     for atom, n in f.atoms.items():
@@ -853,8 +854,13 @@ def chk_compound(acc, inp):
     # (a) value
     acc.ev("value:" + cid)
     try:
-        got = P.xray_sld(comp, density=rho_m, energy=E)
         e1, e2, t1, t2, info = oracle_sld(comp, rho_m, E)
+    except Exception as e:
+        acc.count_note("ORACLE ERROR (case skipped, not a verdict on the code)",
+                       "%s: %s" % (cid, exc_str(e)))
+        return
+    try:
+        got = P.xray_sld(comp, density=rho_m, energy=E)
     except Exception as e:
         acc.bad("value", cid, "xray_sld raised for a compound of tabulated atoms inside every table "
                 "range", inp, exc_str(e), "r_e*N_A*density/mass*1e-8*(sum n f1, sum n f2)")
@@ -964,9 +970,10 @@ def chk_compound(acc, inp):
         okn = np.shape(nv) == (len(Es),)
         if okn:
             for i, x in enumerate(Es):
-                okn = okn and complex(nv[i]) == complex(xsf.index_of_refraction(comp, density=rho_m,
-                                                                                energy=x)) \
-                    if not np.isnan(complex(nv[i]).real) else okn
+                dv = 1 - complex(nv[i])
+                ds = 1 - complex(xsf.index_of_refraction(comp, density=rho_m, energy=x))
+                okn = okn and same(dv.real, ds.real, rel=REL_SLD, extra=4e-16) \
+                    and same(dv.imag, ds.imag, rel=REL_SLD, extra=1e-300)
         if not okn:
             acc.bad("index_vector", cid, "index_of_refraction(energy=vector) entries differ from the "
                     "scalar calls", inp, nv, "scalar calls")
